@@ -134,7 +134,16 @@ func init() {
 				case pathsim.EvFuncLit:
 					return r.litDoes(c.Info, ev.Lit, remove, retained)
 				case pathsim.EvCall:
-					return callTo(remove)(c, ev)
+					if callTo(remove)(c, ev) {
+						return true
+					}
+					// the goroutine's literal turned into a named method: go s.removeObsolete(ids)
+					if ev.Go && ev.Call != nil {
+						if hf := c.P.FuncInfoOf(c.P.CalleeFunc(c.Info, ev.Call)); isNewHelper(c.P, hf) {
+							return r.litDoes(c.Info, synthLit(hf), remove, retained)
+						}
+					}
+					return false
 				case pathsim.EvSend:
 					return prog.SelField(c.Info, ev.Chan) == retained
 				}
